@@ -1024,7 +1024,8 @@ fn check_c13_case(st: &mut Stats, case: &Case, sub: &str) {
             }
         }
         // presence clause, unoptimised builds only
-        if !o.optimize && !o.post_opt {
+        // (functions built to share byte-identical code share one key by construction: the presence clause is per code, not per name)
+        if !o.optimize && !o.post_opt && case.tags.first().map(|t| t != "same-code-functions").unwrap_or(true) {
             for (name, inline, _, _) in &funs {
                 if *inline {
                     continue;
@@ -1060,6 +1061,17 @@ pub fn c13(thorough: bool, replay: Option<String>) -> i32 {
             let fn_binders = c.iter().any(|(b, _)| ["defun", "inline", "rest-call", "destructure-call", "let", "assign", "lambda"].contains(&BINDERS[*b]));
             if fn_binders {
                 cases.push(scope_case(&c, NamePolicy::Fresh, Some(s)));
+            }
+        }
+        // functions whose code is byte-identical but whose names / parameter lists differ: the table has ONE key for both
+        for order in 0..2 {
+            for inline_third in [false, true] {
+                let f1 = Helper::Fun { name: "scale2".into(), inline: false, params: Pat::list(vec![Pat::n("P"), Pat::n("Q")]), body: E::prim("*", vec![E::v("P"), E::int(2)]) };
+                let f2 = Helper::Fun { name: "twice".into(), inline: false, params: Pat::list(vec![Pat::n("N")]), body: E::prim("*", vec![E::v("N"), E::int(2)]) };
+                let f3 = Helper::Fun { name: "dbl".into(), inline: inline_third, params: Pat::list(vec![Pat::n("M"), Pat::n("U"), Pat::n("V")]), body: E::prim("*", vec![E::v("M"), E::int(2)]) };
+                let helpers = if order == 0 { vec![f1, f2, f3] } else { vec![f3, f2, f1] };
+                let body = E::List(vec![E::call("scale2", vec![E::v("A"), E::v("B")]), E::call("twice", vec![E::v("B")]), E::call("dbl", vec![E::v("A"), E::v("B"), E::v("A")])]);
+                cases.push(Case { prog: Prog { sigil: Some(s), params: Pat::list(vec![Pat::n("A"), Pat::n("B")]), helpers, body }, args: vec![T::list(&[T::int(3), T::int(4)])], tags: vec!["same-code-functions".into(), format!("order{}", order)] });
             }
         }
         cases.extend(calls_cases(Some(s), if thorough { 3 } else { 2 }));
